@@ -433,6 +433,14 @@ def r_conv(ctx):
                     arg_ = t_[2][-1] if t_[2] else None
                     zero_sym = arg_ in (('c', 0), ('c', 'A'), ('sub', ('c', ALPHA), ('c', 0)))
                     empt = any(is_call(x, 'builtins.len') or x == ('list',) or x == ('c', '') for a, p in ctx.conds(f, nd_) for x in walk_term(a))
+                    digit_lists = {d2.name for x2 in f.nodes if x2.loops for d2 in x2.defs
+                                   if d2.kind == 'mutate' and isinstance(d2.extra, ast.Attribute) and d2.extra.attr in ('append', 'insert')}
+                    is_digit = arg_ is not None and not zero_sym and arg_[0] != 'c' and d.name in digit_lists
+                    if is_digit and not empt:
+                        run.refute('R-CONV', f, 'zero-renders-as-no-digit', nd_.lineno,
+                                   '%s emits a digit outside its division loop, whatever is left of the number: the number 0 renders as '
+                                   'one digit, so a width of 0 gives a non-empty result and set_vt(strand, 1) returns two symbols' % name,
+                                   inputs='the number 0 with width 0 (check length 1)')
                     if zero_sym and empt:
                         run.refute('R-CONV', f, 'zero-renders-as-no-digit', nd_.lineno,
                                    '%s puts a zero symbol into an empty digit list: the number 0 renders as one digit, so a width of 0 '
@@ -541,6 +549,17 @@ def r_shuf(ctx):
                 sized.append(shape)
                 if is_pow4k(shape[1], K) and is_four(shape[2]):
                     ok = True
+    # every loop over range(E) with E a function of K alone covers exactly the 4^K rows
+    for nd_ in f.nodes:
+        if nd_.kind == 'for':
+            it_ = f.term(nd_.stmt.iter, nd_)
+            if is_call(it_, 'builtins.range') and len(it_[2]) == 1 and any(x == K for x in walk_term(it_[2][0])):
+                vals_ = [feval(it_[2][0], lambda x, kv=kv: kv if x == K else UNKNOWN) for kv in (1, 3)]
+                if all(v_ is not UNKNOWN for v_ in vals_) and vals_ != [4, 64]:
+                    run.refute('R-SHUF', f, 'all-rows-shuffled', nd_.lineno,
+                               'the loop over the rows runs to %s, which is %s for observed length 1 and 3; the table has 4^K = 4 and 64 '
+                               'rows (K**4 equals 4**K only for K = 2 and 4)' % (show(it_[2][0])[:40], vals_),
+                               inputs='observed lengths other than 2 and 4')
     _tri(run, ok, bool(sized) and not ok, 'R-SHUF', f, 'shape', f.node.lineno, 'zeros(4^K x 4)',
          'the table is allocated with shape %s, not (4^K, 4)' % [show(s_)[:60] for s_ in sized], inputs='every k')
     # stores
@@ -938,6 +957,13 @@ def r_repr(ctx):
                 if not ok and v[0] == 'sub' and v[1][0] == 'iter' and key[0] == 'iter' and v[1][2] == key[2] and \
                         v[1][1][0] == 'sub' and K.kind(v[1][1][1], f) == 'ACC' and v[1][1][2] != key[1]:
                     wit = True
+                # ACC[key][MASK[other]] with MASK = (ACC >= 0): the liveness mask of another row filters this row
+                if not ok and v[0] == 'sub' and v[1][0] == 'sub' and K.kind(v[1][1], f) == 'ACC' and v[1][2] == key and \
+                        v[2][0] == 'sub' and v[2][2] != key and v[2][1][0] == 'cmp' and K.kind(v[2][1][2], f) == 'ACC' or \
+                        (not ok and v[0] == 'sub' and v[1][0] == 'sub' and K.kind(v[1][1], f) == 'ACC' and v[1][2] == key and
+                         v[2][0] == 'sub' and v[2][2] != key and v[2][2][0] in ('idx', 'iter') and
+                         any(K.kind(y, f) == 'ACC' for y in walk_term(v[2][1]))):
+                    wit = True
                 _tri(run, ok, wit, 'R-REPR', f, 'latter-map-entry', nd.lineno, 'latter_map[v] = live entries of ACC[v]',
                      'latter_map[%s] receives %s: not the live entries of the row of the same vertex'
                      % (show(key)[:40], show(val)[:80]), inputs='every graph')
@@ -1000,6 +1026,12 @@ def r_max(ctx):
             (is_call(c0, 'numpy.argmax') and len(c0[2]) == 1 and c0[2][0][0] == 'un' and c0[2][0][1] == '-') or
             (is_call(c0, 'numpy.argmax') and len(c0[2]) == 1 and c0[2][0][0] == 'sub' and
                                             strip_int(c0[2][0][2]) != strip_int(row) and c0[2][0][2][0] in ('v', 'iter', 'sub', 'c')))
+    if not okc and not witc:
+        # where(S == max(S)) gives (rows, columns) of ALL maxima: a column taken from it is not tied to the chosen row
+        for x in walk_term(c0):
+            if x[0] == 'item' and x[2] == 1 and is_call(x[1], 'numpy.where', 'numpy.nonzero') and x[1][2] and x[1][2][0][0] == 'cmp' \
+                    and not any(y == strip_int(row) for y in walk_term(c0)):
+                witc = True
     _tri(run, okc, witc, 'R-MAX', f, 'column=argmax(scores[row])', nd.lineno, 'column is the argmax of the chosen row',
          'the cleared column is %s, not argmax(scores[row]) of the chosen row' % show(col)[:80], inputs='every call')
     is_score_call = scores is not None and call_name(scores) is not None and call_name(scores).endswith('.calculate_intersection_score')
